@@ -69,49 +69,86 @@ def _tag(s):
     return ("m" if s < 0 else "p") + ("%g" % abs(s)).replace("+", "").replace("-", "n").replace(".", "_")
 
 
+def _short(v):
+    return {"inside": "in", "outside": "out", "notinside": "nin", "end": "end", "any": "any"}[v]
+
+
+def _vec(fam, roots, k, bounds="shared", wsign=None, budget=None, oracle=True):
+    n = len(roots)
+    ws = "" if wsign is None else "-w" + "".join("p" if x > 0 else "m" for x in (wsign if isinstance(wsign, list) else [wsign]))
+    return dict(id="vec%d-%s-%s-%s-k%d%s" % (n, fam, bounds, "_".join(_short(r) for r in roots), k, ws), family=fam,
+                scale="sym" if fam == "jump" else [1e3, -1.0, 1e-3][:n], root=list(roots), k=k, tol="sym", nvec=n, bounds=bounds,
+                wsign=wsign, oracle=oracle, budget=budget)
+
+
 def instances(tier):
     q = tier == "quick"
     out = []
-    bq = dict(wall_s=60 if q else 600, max_paths=4000 if q else 60000)
+    bq = dict(wall_s=60 if q else 840, max_paths=4000 if q else 200000, max_branches=3000)
     k_lin = 4 if q else 8
-    k_jump = 3 if q else 5
-    # ---- scalar solver, linear family
+    k_jump = 3 if q else 7
+    # ---- scalar solver, linear family: scale sweep x root position
     for s in SCALES + [-x for x in SCALES]:
-        roots = ["inside", "outside", "end"]
-        if q and s < 0 and abs(s) not in (1e-6, 1e3):
-            roots = ["inside"]
-        for root in roots:
+        for root in ("inside", "outside", "end"):
             out.append(dict(id="lin-%s-%s-k%d" % (_tag(s), root, k_lin), family="linear", scale=s, root=root, k=k_lin, tol="sym",
                             nvec=0, budget=bq))
     for root in ("inside", "outside", "end"):
         out.append(dict(id="lin-ssym-%s-k%d" % (root, k_lin), family="linear", scale="sym", root=root, k=k_lin, tol="sym", nvec=0, budget=bq))
-    out.append(dict(id="lin-p1e3-inside-k%d-toldefault" % k_lin, family="linear", scale=1e3, root="inside", k=k_lin, tol=None, nvec=0, budget=bq))
-    # ---- scalar solver, jump family
+    out.append(dict(id="lin-p1000-inside-k%d-toldefault" % k_lin, family="linear", scale=1e3, root="inside", k=k_lin, tol=None, nvec=0, budget=bq))
+    # ---- scalar solver, jump family (symbolic heights u, v)
     for root in ("inside", "notinside"):
-        out.append(dict(id="jump-%s-k%d" % (root, k_jump), family="jump", scale="sym", root=root, k=k_jump, tol="sym", nvec=0, budget=bq))
-    out.append(dict(id="jump-inside-k%d-toldefault" % min(k_jump, 3), family="jump", scale="sym", root="inside", k=min(k_jump, 3), tol=None, nvec=0, budget=bq))
-    # ---- vector solver against the scalar one
-    kv = 2 if q else 3
-    for n in (1, 2, 3):
-        kk = kv if n < 3 else (1 if q else 2)
-        for fam in ("linear", "jump"):
-            for bounds in ("shared", "percomp"):
-                if n == 1 and bounds == "percomp":
-                    continue
-                if q and n == 3 and bounds == "percomp":
-                    continue
-                out.append(dict(id="vec%d-%s-%s-k%d" % (n, fam, bounds, kk), family=fam, scale="sym" if fam == "jump" else [1e3, -1.0, 1e-3][:n],
-                                root="any", k=kk, tol="sym", nvec=n, bounds=bounds, budget=bq))
-    # ---- quadratics (thorough only; may end inconclusive)
+        for ws in ((None,) if q or root == "notinside" else (1, -1)):
+            out.append(dict(id="jump-%s-k%d%s" % (root, k_jump, "" if ws is None else "-w" + "pm"[ws < 0]), family="jump", scale="sym", root=root,
+                            k=k_jump, tol="sym", nvec=0, wsign=ws, budget=bq))
+    out.append(dict(id="jump-inside-k3-toldefault", family="jump", scale="sym", root="inside", k=3, tol=None, nvec=0, budget=bq))
+    for root in ("inside", "notinside"):       # the same family written as an if-then-else term instead of a forking `if`
+        out.append(dict(id="jump-ite-%s-k%d" % (root, 3 if q else 4), family="jump", scale="sym", root=root, k=3 if q else 4, tol="sym",
+                        nvec=0, ite=True, budget=bq))
+    # ---- vector solver against the scalar one (instances split by root position / bracket orientation for parallelism)
+    if q:
+        out.append(_vec("linear", ["any"], 3, budget=bq))
+        out.append(_vec("jump", ["any"], 2, budget=bq))
+        for roots in (["inside", "inside"], ["inside", "outside"], ["outside", "inside"], ["end", "inside"]):
+            out.append(_vec("linear", roots, 2, budget=bq))
+        for roots in (["inside", "inside"], ["inside", "outside"]):
+            out.append(_vec("linear", roots, 2, bounds="percomp", budget=bq))
+        for ws in (1, -1):
+            # (oracle=False: only the agreement with the scalar solver is asserted; the clauses themselves are asserted on the
+            #  scalar result in the scalar instances and on the vector result in the other vector instances)
+            out.append(_vec("jump", ["inside", "inside"], 1, wsign=ws, budget=bq, oracle=False))
+            out.append(_vec("jump", ["inside", "notinside"], 1, wsign=ws, budget=bq))
+            out.append(_vec("linear", ["inside", "inside", "outside"], 1, wsign=ws, budget=bq))
+        for ws in ([1, 1], [1, -1]):
+            out.append(_vec("jump", ["inside", "inside"], 0, bounds="percomp", wsign=ws, budget=bq))
+        out.append(_vec("jump", ["inside", "inside", "notinside"], 0, wsign=1, budget=bq, oracle=False))
+    else:
+        out.append(_vec("linear", ["any"], 8, budget=bq))
+        out.append(_vec("jump", ["any"], 5, budget=bq))
+        out.append(_vec("linear", ["any", "any"], 3, budget=bq))
+        out.append(_vec("linear", ["any", "any"], 3, bounds="percomp", budget=bq))
+        for ws in (1, -1):
+            out.append(_vec("jump", ["inside", "inside"], 2, wsign=ws, budget=bq))
+            out.append(_vec("jump", ["inside", "notinside"], 2, wsign=ws, budget=bq))
+            out.append(_vec("linear", ["any", "any", "any"], 2, wsign=ws, budget=bq))
+            out.append(_vec("jump", ["inside", "inside", "inside"], 0, wsign=ws, budget=bq))
+            out.append(_vec("jump", ["inside", "inside", "notinside"], 1, wsign=ws, budget=bq))
+        for ws in ([1, 1], [1, -1], [-1, 1], [-1, -1]):
+            out.append(_vec("jump", ["inside", "inside"], 1, bounds="percomp", wsign=ws, budget=bq))
+    # ---- two-root quadratics (thorough only; the inverse-quadratic step leaves quotient terms: may end inconclusive)
     if not q:
-        for s in (1.0, -1e3):
-            for root in ("one-inside", "both-inside", "none-inside"):
-                out.append(dict(id="quad-%s-%s-k2" % (_tag(s), root), family="quadratic", scale=s, root=root, k=2, tol="sym", nvec=0,
-                                budget=dict(wall_s=600, max_paths=20000)))
-    # ---- floating-point lemma
-    out.append(dict(id="fp-lemma-float16", family="fp", dtype="float16", timeout_s=60, budget=dict(wall_s=120, max_paths=4)))
-    if not q:
-        out.append(dict(id="fp-lemma-float32", family="fp", dtype="float32", timeout_s=600, budget=dict(wall_s=700, max_paths=4)))
+        bquad = dict(wall_s=500, max_paths=20000, max_branches=3000)
+        for (s, roots) in ((1.0, ("one-inside", "both-inside", "none-inside")), (-1e3, ("one-inside",))):
+            for root in roots:
+                for ws in (1, -1):
+                    out.append(dict(id="quad-%s-%s-k1-w%s" % (_tag(s), root, "pm"[ws < 0]), family="quadratic", scale=s, root=root, k=1, tol="sym",
+                                    nvec=0, wsign=ws, budget=bquad))
+    # ---- floating-point lemma (QF_FP)
+    for dt in (("float16", "float32") if q else ("float16", "float32", "float64")):
+        t = 60 if q else 700
+        out.append(dict(id="fp-lemma-%s" % dt, family="fp", dtype=dt, timeout_s=t, budget=dict(wall_s=t + 30, max_paths=4)))
+    # the pool starts instances in list order: expensive ones first
+    rank = {"quadratic": 0, "fp": 1, "jump": 2, "linear": 3}
+    out.sort(key=lambda i: (0 if i.get("nvec") else 1, rank[i["family"]]))
     return out
 
 
@@ -258,7 +295,7 @@ def _tolerance(c, inst):
     return float(t), float(t)
 
 
-def _bracket(c, inst, tol, suffix=""):
+def _bracket(c, inst, tol, suffix="", idx=0):
     w = c.real("w" + suffix)
     if inst.get("a") is not None:
         if c.symbolic:
@@ -271,6 +308,8 @@ def _bracket(c, inst, tol, suffix=""):
         c.assume(a >= -1)
         c.assume(a <= 1)
     ws = inst.get("wsign")
+    if isinstance(ws, list):
+        ws = ws[idx]
     if ws:
         c.assume(w > 0 if ws > 0 else w < 0)
     else:
@@ -438,7 +477,7 @@ def _vector(c, inst, n, tol_arg, tol):
         if shared and i > 0:
             a, w = brs[0]
         else:
-            a, w = _bracket(c, inst, tol, "" if i == 0 else "_%d" % i)
+            a, w = _bracket(c, inst, tol, "" if i == 0 else "_%d" % i, i)
         brs.append((a, w))
         fns.append(_make_fn(c, inst, a, w, idx=i, scale=scales[i], root=roots[i]))
     if shared:
@@ -462,7 +501,8 @@ def _vector(c, inst, n, tol_arg, tol):
         b = a + w
         fn = fns[i]
         x, ok = _num(c, xv[i]), _flag(c, okv[i])
-        _oracle(c, "c14.vec", fn, a, b, tol, x, ok, (iav[i], ibv[i]), fn.calls)
+        if inst.get("oracle", True):
+            _oracle(c, "c14.vec", fn, a, b, tol, x, ok, (iav[i], ibv[i]), fn.calls)
         res = _solve_scalar(c, "c14", fn, a, b, tol_arg)
         if res is None:
             continue
